@@ -155,6 +155,17 @@ var propSpecs = []PropSpec{
 				}
 			}
 		}},
+	{ID: "C13", Pkgs: []string{".", "pubsub", "erc", "adt", "dt"},
+		BoundsQ:     "every unordered pair of public methods (11 Queue, 16 Deque, 8 WaitGroup, 7 Collector, 11 adt.Map, 5 Atomic, 5 Synchronized, 5 Once, 5 Pool, 10 synchronized Set operations; 12 Lock/Once/Limit wrappers x 2 callers) on one shared instance in two goroutines, every schedule class within preemption bound 2, happens-before (vector clock) monitor over every interpreted memory access",
+		BoundsT:     "triples (three goroutines) for the pair entries except Queue/Deque (pairs at preemption bound 3), 3 callers for wrappers, preemption bound 2",
+		Outside:     "pubsub.Broker (see C08/C09); more than three goroutines; races that need longer call sequences per goroutine; the monitor works at the granularity of interpreted cells (maps are one cell), data races inside the Go runtime objects themselves (sync.Map, sync.Pool) are outside (they are models)",
+		Assumptions: commonAssumptions,
+		Tune: func(cfg *Config, tier, entry string) {
+			cfg.Preempt = 2
+			if tier == "thorough" && (entry == "VC13_Queue" || entry == "VC13_Deque") {
+				cfg.Preempt = 3
+			}
+		}},
 	{ID: "TV", Pkgs: []string{"internal"}, BoundsQ: "translator validation corpus"},
 }
 
